@@ -1472,6 +1472,57 @@ def _k1_parts_symbolic(tier):
     return [p for p in _k1_parts(tier) if p["type"] in ("RtfContent", "EmailContent*")]
 
 
+# ---------------------------------------------------------------------------------------
+# K6: EPUB spine items -> chapters (content documents are identified by their media type)
+# ---------------------------------------------------------------------------------------
+
+def k6_epub_spine(ctx):
+    from sharepoint2text.parsing.extractors import epub_extractor as ep
+    medias = ["application/xhtml+xml", "text/html", "application/xhtml+xml; charset=utf-8", "", "image/png",
+              "application/x-dtbncx+xml"]
+    media = medias[ctx.choice("media_type", len(medias))]
+    n_ext = ctx.choice("href_suffix_len", 7)
+    suffix = ctx.fresh_chars("href_suffix", n_ext, 33, 122)
+    if ctx.concrete:
+        ctx.assume("/" not in suffix)
+    else:
+        for ch in suffix.c:
+            ctx.assume(ch != 47)
+    href = ("OEBPS/ch" + suffix) if ctx.concrete else (S.CharStr("OEBPS/ch") + suffix)
+    number = 1 + ctx.choice("spine_position", 3)
+
+    class Ctx:
+        manifest = {"item": {"href": href, "media-type": media}}
+
+        def resolve_href(self, h):
+            return h
+
+        def exists(self, p):
+            return True
+
+        def read_text(self, p):
+            return "<html><head><title>T</title></head><body><p>CHAPTERTEXT</p></body></html>"
+
+        def read_bytes(self, p):
+            return b""
+    try:
+        chapter, counter, imgs = ep._extract_chapter(Ctx(), "item", number, 0)
+    except Exception as e:
+        ctx.fail("extract-chapter-raised", exc=type(e).__name__, msg=str(e)[:80])
+        return
+    is_content_doc = media.startswith("application/xhtml+xml") or media.startswith("text/html")
+    if ctx.perturb == "expect_images_as_chapters":
+        is_content_doc = is_content_doc or media == "image/png"
+    if is_content_doc:
+        ctx.require(chapter is not None, "content-document-in-spine-dropped", media_type=media, href=str(href))
+        if chapter is not None:
+            ctx.require(chapter.chapter_number == number and "CHAPTERTEXT" in chapter.text,
+                        "chapter-number-or-text-wrong", got=chapter.chapter_number)
+    else:
+        ctx.require(True, "not-a-content-document")
+
+
+
 KERNELS = [
     Kernel("K1", "unit algebra of every content type of the registry: one unit per source element, number = source "
                  "position, unit k holds element k only, full text = trimmed newline-join of the unit texts",
@@ -1569,6 +1620,13 @@ KERNELS = [
            assumptions=["separator matches are ordered and do not overlap (what re.finditer guarantees)"],
            outside=["which lines the regex accepts as separators (C16)", "parsing of each message"],
            timeout={"quick": 100, "thorough": 1100}),
+    Kernel("K6", "EPUB: every spine item whose media type is XHTML/HTML becomes a chapter with its spine position",
+           k6_epub_spine,
+           targets=lambda: [__import__("sharepoint2text.parsing.extractors.epub_extractor", fromlist=["x"])._extract_chapter],
+           perturb=["expect_images_as_chapters"],
+           symbolic=["every character of the chapter file name's suffix (length 0..6)"],
+           choices=["manifest media type", "spine position"],
+           stubs=["_EpubContext -> stand-in with one manifest item; file exists and holds one paragraph"]),
     Kernel("K5", "PPTX slide order follows sldIdLst; each slide part name is the OPC-resolved relationship target",
            k5_slide_order, targets=lambda: [_pptx_mod()._PptxContext._compute_slide_order], strength="data",
            parts=_k5_parts, perturb=[("expect_rels_file_order", {"rels": 2, "entries": 2, "target_kinds": 1})],
